@@ -358,7 +358,7 @@ class SymInterp(Interp):
         return super().e_UnaryOp(e, env)
 
     def neg(self, v):
-        if isinstance(v, (list, tuple)):
+        if isinstance(v, (list, tuple)) or (isinstance(v, Ext) and v.name.split(".")[-1] in ("inf", "Inf", "infty", "PINF")):
             v = self.num(v)
         return super().neg(v)
 
@@ -368,6 +368,14 @@ class SymInterp(Interp):
             if isinstance(r, Arr):
                 r.isbool = True
             return r
+        if isinstance(op, (ast.Lt, ast.LtE, ast.Gt, ast.GtE, ast.Eq, ast.NotEq)):
+            # IEEE: every ordered comparison with NaN, and NaN == x, is False; NaN != x is True (also for x = NaN)
+            def is_nan(v):
+                if isinstance(v, Ext):
+                    return v.name.split(".")[-1] in ("nan", "NaN", "NAN")
+                return isinstance(v, Dual) and "@nan" in v.a.atoms()
+            if is_nan(a) or is_nan(b):
+                return isinstance(op, ast.NotEq)
         if isinstance(a, (Dual, int, float, Fraction)) and isinstance(b, (Dual, int, float, Fraction)) and not isinstance(a, bool) and not isinstance(b, bool):
             self._log(Dual.of(a).a - Dual.of(b).a)
         return super().compare(a, op, b)
